@@ -458,7 +458,7 @@ def draw_case(d, kinds=None, *, degenerate=False, general_position=False,
               init_kinds=('dirichlet', 'onehot', 'uniform', 'blurred'),
               cbmm_max_D=6, allow_mask=True, force_lead=None,
               positive_saliency_only=False, regular_share=True,
-              stable_only=False, force_aligner=False):
+              stable_only=False, force_aligner=False, long_share=0):
     """Generic generator of a mixture-model fit.
 
     profile 'regular': clustered data in general position, double precision,
@@ -510,6 +510,14 @@ def draw_case(d, kinds=None, *, degenerate=False, general_position=False,
     # decisions added later draw from a second stream derived from the same
     # recorded seed, so that committed replays keep their meaning
     aux = np.random.default_rng([seed, 777])
+    # decisions of generator epoch 3 (their own stream, see core.GENERATOR_EPOCH)
+    aux3 = np.random.default_rng([seed, 779])
+    epoch3 = getattr(d, 'epoch', 3) >= 3
+    if epoch3 and long_share and not general_position and \
+            int(aux3.integers(0, long_share)) == 0:
+        # utterance-sized numbers of frames (hundreds per class)
+        case.N = int(case.N * aux3.integers(6, 13))
+        case.meta['frames'] = 'many'
     lead_, K, N, D = case.lead, case.K, case.N, case.D
 
     # ---- data
@@ -603,6 +611,12 @@ def draw_case(d, kinds=None, *, degenerate=False, general_position=False,
         case.init = np.stack([soft[rng.permutation(K)] for _ in range(lead_[0])])
         case.np_seed = 0
         ik = 'permuted-blurred-truth'
+    if epoch3 and case.init is not None and ik.startswith('onehot') and kind != 'cacgmm' \
+            and int(aux3.integers(0, 3)) < (2 if case.meta.get('frames') == 'many' else 1):
+        # a hard partition as the caller may store it: boolean or small integers
+        dt = [np.int8, np.bool_, np.int64, np.float32, np.int8][int(aux3.integers(0, 5))]
+        case.init = case.init.astype(dt)
+        ik += ':' + np.dtype(dt).name
     case.meta['init'] = ik
     case.iterations = d.int(1, max_iterations)
 
